@@ -16,6 +16,10 @@ CHECKS = {
    text="Every tabulated quadrature rule and every (element type, matrix type) pair of Gauss_factory is executed from the extracted AST in exact arithmetic (decimal literals as rationals, np.sqrt as algebraic numbers): points inside, weights positive and summing to the reference measure, exactness for every monomial of the documented order, and the necessary rank count on 2-element patches. Finite and ground, hence complete.",
    note="Trusted: closed-form reference integrals, exact reading of literals, independence of sqrt(prime) generators, leggauss external (values checked at run time, labelled bounded). Tolerance 1e-13 x reference measure. Actual ranks of assembled matrices are C02's obligations. Known finding: TRI15 mass rule.",
    technique="contract-based deductive verification: extracted rule tables executed exactly, ground VCs discharged by exact algebraic-number arithmetic"),
+ "C11": dict(level="proof", design="DESIGN.md 3/C11",
+   text="Isotropic, TransverselyIsotropic and Orthotropic law classes are re-assembled from the AST and _Behavior is executed with symbolic moduli: plane-stress/plane-strain reductions, S C = I, symmetry are ring identities; SPD is a nonlinear-real query (z3/cvc5) under the admissibility conditions; Get_Pmat/Apply_Pmat are executed on a Cayley-parametrised rotation with symbolic axis lengths: P orthogonal for every rotation and every axis length, Apply_Pmat equals the Kelvin-Mandel image of the rotated 4th-order tensor.",
+   note="Trusted: numpy model vt/npshim.py (allocators, sqrt, linalg.inv/det/norm, einsum on exact scalars), np.linalg.inv contract, sympy, z3/cvc5. Not covered (listed in evidence.not_attempted): Anisotropic law notation clause, heterogeneous parameter fields, lazy update (effect contract). Batched Get_Pmat shapes are bounded (e,p <= 2).",
+   technique="contract-based deductive verification: symbolic execution of extracted law classes; ring identities by normal form, positivity by z3 QF_NRA"),
 }
 NOT_APPLICABLE = {
 }
